@@ -6,7 +6,7 @@
 set -u
 CH="$1"; PROPS="$2"; NOBASE="${3:-}"
 [[ -f "$CH" ]] && CH="$(readlink -f "$CH")"
-V=/verif
+V="$(dirname "$(dirname "$(readlink -f "$0")")")"
 W=$(mktemp -d /tmp/mw-XXXXXX)
 git -C /repo worktree add -q --detach "$W" HEAD || exit 2
 cleanup() { git -C /repo worktree remove --force "$W" 2>/dev/null; rm -rf "$W"; rm -rf $V/.work/build/$(python3 -c "import hashlib,sys;print(hashlib.sha1(sys.argv[1].encode()).hexdigest()[:8])" "$W")*; }
